@@ -42,7 +42,9 @@ UNSUPPORTED = [
 BUDGET = 3_000_000
 
 POSITIONS = ["root"] + A.WRAPPERS + ["additionalItems/single-items", "additionalItems/no-items", "definitions", "nested-twice", "properties-of-typed-object",
-             "items/under-type-string", "properties/under-type-array", "object-keywords/under-type-list-without-object", "array-keywords/under-type-integer-list"]
+             "items/under-type-string", "properties/under-type-array", "object-keywords/under-type-list-without-object", "array-keywords/under-type-integer-list",
+             # positions a neighbour makes redundant for validation (still positions statham interprets as schemas)
+             "anyOf/after-true", "anyOf/before-empty", "oneOf/next-to-false", "allOf/after-false", "properties/maxProperties-0", "items/maxItems-0+const", "not/not"]
 
 
 def place(position, s):
@@ -65,6 +67,20 @@ def place(position, s):
         return {"type": ["string", "null"], "additionalProperties": s, "patternProperties": {"^a": s}, "propertyNames": s}
     if position == "array-keywords/under-type-integer-list":
         return {"type": ["integer"], "items": [s], "additionalItems": s}
+    if position == "anyOf/after-true":
+        return {"anyOf": [True, s]}
+    if position == "anyOf/before-empty":
+        return {"properties": {"p": {"anyOf": [s, {}]}}}
+    if position == "oneOf/next-to-false":
+        return {"oneOf": [False, s, False]}
+    if position == "allOf/after-false":
+        return {"allOf": [False, s]}
+    if position == "properties/maxProperties-0":
+        return {"maxProperties": 0, "properties": {"a": s}, "additionalProperties": False, "patternProperties": {"^b": s}}
+    if position == "items/maxItems-0+const":
+        return {"maxItems": 0, "items": s, "const": 1, "contains": s}
+    if position == "not/not":
+        return {"not": {"not": s}}
     if position == "properties-of-typed-object":
         return {"type": "object", "title": "Root", "properties": {"p": s}, "patternProperties": {"^q": s}, "additionalProperties": s}
     return A.wrap(position, s)
